@@ -17,7 +17,7 @@ theorem flat_append (A B : Log) : flat (A ++ B) = flat A ++ flat B := by
 theorem Inv_suffix {A B : Log} (h : Inv (A ++ B)) : Inv B := by
   induction A with
   | nil => exact h
-  | cons t A ih => exact ih h.2.2
+  | cons t A ih => exact ih h.2.2.2
 
 theorem Inv_newer_tid {newer : Log} {T : Txn} {older : Log} (h : Inv (newer ++ T :: older)) :
     ∀ t ∈ newer, T.tid < t.tid := by
@@ -27,7 +27,23 @@ theorem Inv_newer_tid {newer : Log} {T : Txn} {older : Log} (h : Inv (newer ++ T
     intro t' ht'
     rcases List.mem_cons.1 ht' with h' | h'
     · subst h'; exact h.2.1 T (by simp)
-    · exact ih h.2.2 t' h'
+    · exact ih h.2.2.2 t' h'
+
+/-- everything newer than a not-packed transaction is not packed -/
+theorem Inv_newer_unpacked {newer : Log} {T : Txn} {older : Log} (h : Inv (newer ++ T :: older))
+    (hp : T.packed = false) : ∀ t ∈ newer, t.packed = false := by
+  induction newer with
+  | nil => simp
+  | cons t newer ih =>
+    intro t' ht'
+    rcases List.mem_cons.1 ht' with h' | h'
+    · subst h'
+      cases hpk : t'.packed with
+      | false => rfl
+      | true =>
+        have := h.2.2.1 hpk T (by simp)
+        rw [hp] at this; cases this
+    · exact ih h.2.2.2 t' h'
 
 theorem txnFind_inv {newer : Log} {T : Txn} {older : Log} (h : Inv (newer ++ T :: older)) :
     txnFind T.tid (newer ++ T :: older) = some (T, older) := by
@@ -37,7 +53,7 @@ theorem txnFind_inv {newer : Log} {T : Txn} {older : Log} (h : Inv (newer ++ T :
     have := Inv_newer_tid h t List.mem_cons_self
     simp only [List.cons_append, txnFind]
     rw [if_neg (by omega)]
-    exact ih h.2.2
+    exact ih h.2.2.2
 
 theorem txnFind_none {tid : Nat} {L : Log} (h : ∀ t ∈ L, t.tid ≠ tid) : txnFind tid L = none := by
   induction L with
